@@ -34,9 +34,29 @@ pub fn rset(r: &Res3) -> ResourceSet {
     ResourceSet::from_strs(&r.0, &r.1, &r.2).expect("resource set")
 }
 
+/// One element of a publication delta. Contents are small integers that
+/// stand for fixed byte strings; `old: None` means a bogus hash.
+#[derive(Clone, Debug, Serialize, Deserialize, PartialEq, Eq, Hash)]
+pub enum PubEl {
+    Publish { uri: String, content: u8 },
+    Update { uri: String, content: u8, old: Option<u8> },
+    Withdraw { uri: String, old: Option<u8> },
+}
+
+pub fn pub_content(c: u8) -> bytes::Bytes {
+    // content 200+ is ballast (large), so that size-based delta truncation
+    // does not dominate in the tiny test repositories
+    let n = if c >= 200 { 60_000 } else { c as usize * 7 };
+    bytes::Bytes::from(format!("content-{c}-{}", "x".repeat(n)))
+}
+
 #[derive(Clone, Debug, Serialize, Deserialize, PartialEq, Eq, Hash)]
 #[serde(tag = "op")]
 pub enum Op {
+    /// a publication delta sent by a publisher (RFC 8181 query, unsigned path)
+    PubDelta { publisher: String, elems: Vec<PubEl> },
+    /// what the RrdpUpdateIfNeeded task does
+    RrdpUpdate,
     /// ROA delta: payloads in krill notation "10.0.0.0/24-24 => 65000"
     Roa { ca: String, add: Vec<String>, del: Vec<String> },
     AspaSet { ca: String, customer: u32, providers: Vec<u32> },
@@ -136,6 +156,56 @@ pub fn asn(a: u32) -> Asn {
 impl World {
     pub fn apply(&mut self, op: &Op) -> OpOutcome {
         match op {
+            Op::PubDelta { publisher, elems } => {
+                use rpki::ca::publication::{Base64, Publish, PublishDelta, Update, Withdraw};
+                let mut delta = PublishDelta::empty();
+                let mut bad_uri = None;
+                for el in elems {
+                    let (uri_s, _) = match el {
+                        PubEl::Publish { uri, .. } => (uri, 0),
+                        PubEl::Update { uri, .. } => (uri, 0),
+                        PubEl::Withdraw { uri, .. } => (uri, 0),
+                    };
+                    let Ok(uri) = rpki::uri::Rsync::from_str(uri_s) else {
+                        bad_uri = Some(uri_s.clone());
+                        break;
+                    };
+                    let hash_of = |old: &Option<u8>| match old {
+                        Some(c) => Base64::from_content(&pub_content(*c)).to_hash(),
+                        None => Base64::from_content(b"bogus").to_hash(),
+                    };
+                    match el {
+                        PubEl::Publish { content, .. } => delta.add_publish(Publish::new(
+                            None, uri, Base64::from_content(&pub_content(*content)),
+                        )),
+                        PubEl::Update { content, old, .. } => delta.add_update(Update::new(
+                            None, uri, Base64::from_content(&pub_content(*content)), hash_of(old),
+                        )),
+                        PubEl::Withdraw { old, .. } => {
+                            delta.add_withdraw(Withdraw::new(None, uri, hash_of(old)))
+                        }
+                    }
+                }
+                if let Some(u) = bad_uri {
+                    return OpOutcome { ok: false, err: Some(format!("unparseable uri {u}")), tasks: vec![], fatal: None };
+                }
+                let r = self.krill.repo_manager().rfc8181_message(
+                    &pub_h(publisher),
+                    rpki::ca::publication::Query::Delta(delta),
+                    &self.krill,
+                );
+                match r {
+                    Ok(msg) => match msg.as_reply() {
+                        Ok(rpki::ca::publication::Reply::Success) => OpOutcome { ok: true, err: None, tasks: vec![], fatal: None },
+                        Ok(other) => OpOutcome { ok: false, err: Some(format!("reply: {other:?}")), tasks: vec![], fatal: None },
+                        Err(e) => OpOutcome { ok: false, err: Some(e.to_string()), tasks: vec![], fatal: None },
+                    },
+                    Err(e) => OpOutcome { ok: false, err: Some(e.to_string()), tasks: vec![], fatal: None },
+                }
+            }
+            Op::RrdpUpdate => OpOutcome::from_res(
+                self.krill.repo_manager().update_rrdp_if_needed().map(|_| ()),
+            ),
             Op::Roa { ca: c, add, del } => {
                 let updates = RoaConfigurationUpdates {
                     added: add
